@@ -67,7 +67,7 @@ CLAIMS.update({
          'post shapes, scheduler cleanup/switch/schedule shapes, every routine-destroying site resumes the joiner, cancel exit withdraws the waiter token and passes on a wake-up addressed to it, success exit only through a re-test of the resource after wait(), a "post already pending" flag believed only where the posted function clears it, semaphore availability predicate (must-fact count_ >= 1 at the take, folded edges; pass-on iff available), no routine pointer looked up before a context switch dereferenced after it', '§4 C18', 'CFG path rules over clang AST/CFG (templates via explicit instantiation TU)'),
  'C19': ('constant tables equal tables generated from the standards\' formulae (Base64, CRC-16/32, AES S-box/inverse/Rcon, MD5 constants/shifts/order/state/padding, '
          'scalable-integer ranges), every constant-table subscript in range by interval evaluation, serializer/deserializer width and byte-order agreement, '
-         'capacity test before stores, digit validation, no carry lost in the 16-bit one\'s-complement checksum (interval abstract interpretation of the accumulator), AES round/permutation/matrix structure vs FIPS-197 (index expressions evaluated over finite domains), MD5::update width agreement (carry test and block loop) and single input cursor, no wrapped remaining-length re-read in the CRC/checksum loops, residue-class walk of the Base64 decoding loop (every store offset below the capacity DecodeLength guarantees for that residue), linear bound proofs 0 <= index <= size-1 for every indexed access through a (ptr,size) buffer, state-machine walk of the Base64 encoder against the folded EncodeLength, cached-pointer freshness in the Serializer, no lenient library number parser in a digit decoder', '§4 C19, §10.3 D30, §10.7', 'constant-table conformance + interval evaluation/abstract interpretation + sibling agreement over clang AST/CFG'),
+         'capacity test before stores, digit validation, no carry lost in the 16-bit one\'s-complement checksum (interval abstract interpretation of the accumulator), AES round/permutation/matrix structure vs FIPS-197 (index expressions evaluated over finite domains), MD5::update width agreement (carry test and block loop) and single input cursor, no wrapped remaining-length re-read in the CRC/checksum loops, residue-class walk of the Base64 decoding loop (every store offset below the capacity DecodeLength guarantees for that residue), linear bound proofs 0 <= index <= size-1 for every indexed access through a (ptr,size) buffer, state-machine walk of the Base64 encoder against the folded EncodeLength, cached-pointer freshness in the Serializer, no lenient library number parser in a digit decoder, bulk accesses (memcpy & co.) through (ptr,size) buffers proven inside them, MD5 message schedule replayed over byte provenance (the blocks compressed are the RFC 1321 padded message for every length 0..200 and split into updates), Base64 caller-buffer encoder replayed over byte provenance (reads/stores inside the buffers, RFC 4648 grouping and padding, refusal when one character short)', '§4 C19, §10.3 D30, §10.7', 'constant-table conformance + interval evaluation/abstract interpretation (incl. replay over a byte-provenance domain) + sibling agreement over clang AST/CFG'),
  'C20': ('seconds->milliseconds conversion wide enough for the operand\'s type range, re-arm before callback, next instant depends on max(now, previous target), '
          'time-zone symmetry, running<=>armed, out-parameter/strictly-after discipline of every calculateNextLocalTimeSec, day scans offer a full period of strictly-future days (interval abstract interpretation of the loop counter), rounding direction of the wait, no live iteration over the calendar\'s watcher list, the search floor is a fired instant (never an armed one), sentinel discipline for cron_next, who-may-arm (nothing arms an alarm that is not running), zone selection by a flag and not by the offset value, configuration ranges / weekday-mask construction / scan alignment / clock-read test by finite folding, every successful arming programs the timer in that call, the wait is measured from the clock values as read, every true return of a next-instant computation justified', '§4 C20, §10.3 D31/D32',
          'interval evaluation/abstract interpretation + data-dependence/path rules over clang AST/CFG'),
